@@ -335,7 +335,7 @@ class ResourceScenario(ScenarioData):
         Used by team allocations to check the members one after the other against what
         the members checked before them will consume.
         """
-        node = self.property
+        node: Optional[Any] = self.property
         while node:
             limits = node.get("limits", self.scenarioIdx)
             if limits and hasattr(limits, "inc"):
